@@ -71,6 +71,7 @@ def lockset_units(prop):
 
 #: which unit families each property draws on
 FAMILIES = {
+    "C14": ["early", "op", "srcfac", "own", "class", "subscribe", "tramp"],
     "C02": ["own", "class", "subscribe"],
     "C03": ["own", "class", "subscribe"],
     "C43": ["lockset"],
@@ -125,6 +126,8 @@ def units_for(prop, tier):
         us.append({"runner": "replay", "prop": prop, "id": "reactivex/subject/replaysubject.py::ReplaySubject"})
     if "timedextra" in fams:
         us.append({"runner": "timedextra", "prop": prop, "id": f"timed-operators-not-under-contract/{prop}"})
+    if "early" in fams:
+        us.append({"runner": "early", "prop": prop, "id": "early-termination/C14"})
     if "own" in fams:
         us.append({"runner": "own", "prop": prop, "id": f"ownership-conditions/{prop}"})
     if "seqlemma" in fams:
